@@ -75,8 +75,12 @@ def run(res, proofs_ok, proofs_why):
     if not ok:
         toks, out = ra_search(cfg, res)
         if toks:
+            toks = _shm.clean_ra(cfg, [toks])[0]
+            impl = c.run_lines(binary, [_shm.line_of(cfg, toks)])[0]
             res.violation({"property": "C02", "kind": "history",
                            "case": {"schedule": _shm.tok_str(toks), "model_execution": out,
+                                    "real_snapshot_under_simulated_memory": impl,
+                                    "real_reader_returns_the_mixture": any(ob["t"] == "T" and ob["ret"] == "F" and _shm.rec_index(ob["cells"]) is None for ob in _shm.parse_obs(impl)),
                                     "why": ["under the release/acquire model, with the orderings and fences measured from the running code, snapshot() accepts a "
                                             "record whose cells come from two different publications (R j k = the load returns event k of the writer's log)"]},
                            "obligation": "safe_cfg current_cfg = true fails: " + log[-600:],
@@ -109,6 +113,8 @@ def replay(res, path):
             return 1
         toks = _shm.parse_tok_str(case["schedule"])
         out = c.run_model([_shm.line_of(cfg, toks)])[0]
+        impl = c.run_lines(binary, [_shm.line_of(cfg, _shm.clean_ra(cfg, [toks])[0])])[0]
+        print("real snapshot() under the engine's simulated memory: %s" % impl)
         torn = any(ob["t"] == "T" and ob["ret"] == "F" and _shm.rec_index(ob["cells"]) is None for ob in _shm.parse_obs(out))
         print("measured cfg %s\nschedule %s\nmodel execution %s\nmixture accepted: %s" % (cfg, case["schedule"], out, torn))
         return 1 if torn else 0
